@@ -11,6 +11,8 @@ A spec (plain JSON) is
    'objects': [{'cls': idx, 'vals': {attr: value}}],    # pk = i+1 or 'k<i+1>'
    'nholders': n, 'links': {'<k>': [[holder idx, object idx], ...]},
    'reopen': bool,                                      # read through a second Database bound to the same file
+   'pk_step': n (optional, int pk only),                # pk = (i+1)*n: sparse ids, MAX(id) well above the row count
+   'observe': 'type'|'dict'|'subattr' (optional),       # what is looked at FIRST on every object that is reached
    'sessions': [[op, ...], ...]}                        # each inner list runs inside one later db_session
 """
 import os, shutil, tempfile
@@ -56,6 +58,8 @@ class Model(object):
                 self.own[a['name']] = (i, a['kind'])
         self.pkname = spec['pk']['name']
         self.pktype = spec['pk']['type']
+        self.pk_step = spec.get('pk_step', 1) if self.pktype == 'int' else 1
+        self.observe = spec.get('observe', 'type')
         self.table = spec['table'] or cs[0]['name']
         d = spec['discr']
         self.discr_column = d['column'] or d['attr'] or 'classtype'
@@ -70,7 +74,7 @@ class Model(object):
             self.links[k] = [tuple(p) for p in spec['links'].get(str(k), [])]
 
     def pk(self, k):
-        return k + 1 if self.pktype == 'int' else 'k%d' % (k + 1)
+        return (k + 1) * self.pk_step if self.pktype == 'int' else 'k%d' % (k + 1)
 
     def cname(self, i):
         return 'Holder' if i == -1 else self.spec['classes'][i]['name']
@@ -96,6 +100,20 @@ class Model(object):
         if kind == 'opt_str' and j == 0:
             return ''                      # documented: Optional(str) that is not nullable defaults to ''
         return None
+
+    def expected_dict(self, o):
+        """obj.to_dict() with default options: pk, discriminator, every non-lazy non-collection attribute of the CREATING
+        class (own + inherited), to-one relationships as the primary key of the related object"""
+        ob = self.objs[o]
+        d = {self.pkname: ob['pk'], self.spec['discr']['attr'] or 'classtype': self.discr_value(ob['cls'])}
+        for name, v in ob['exp'].items():
+            if self.own[name][1] != 'lazy_int':
+                d[name] = v
+        for k, r in enumerate(self.spec['refs']):
+            if r['kind'] in ('o2o', 'o2m') and r['target'] in self.anc[ob['cls']]:
+                hs = [h + 1 for (h, oo) in self.links[k] if oo == o]
+                d['h%d' % k] = hs[0] if hs else None
+        return d
 
     def is_inst(self, o, c):
         """was object index o created as class c or one of its subclasses (-1 = Holder: never)"""
@@ -221,7 +239,9 @@ def spec_strategy(max_classes=7):
                                    {'name': 'pk', 'type': 'int', 'implicit': False},
                                    {'name': 'code', 'type': 'str', 'implicit': False}]))
         spec = {'pk': pk, 'discr': discr, 'table': draw(st.sampled_from([None, None, 't_root'])),
-                'classes': classes, 'reopen': draw(st.integers(0, 3)) == 0}
+                'classes': classes, 'reopen': draw(st.integers(0, 3)) == 0,
+                'pk_step': draw(st.sampled_from([1, 1, 2, 5])) if pk['type'] == 'int' else 1,
+                'observe': draw(st.sampled_from(['type', 'type', 'dict', 'subattr']))}
 
         # objects
         own = {}
@@ -294,7 +314,7 @@ def spec_strategy(max_classes=7):
             kind = draw(st.sampled_from(
                 ['holder', 'holders', 'get', 'get', 'getk', 'get_attr', 'get_rev', 'select', 'select', 'sql', 'nav', 'nav',
                  'nav', 'isinst', 'isinst', 'isinst_rel', 'isinst_coll', 'subattr', 'subproj', 'join_attr', 'relobjs',
-                 'missing']))
+                 'missing', 'random', 'random']))
             if kind == 'holder':
                 return ['holder', draw(st.integers(0, nh - 1))]
             if kind == 'holders':
@@ -349,6 +369,8 @@ def spec_strategy(max_classes=7):
                 return ['relobjs', draw(st.integers(0, nrefs - 1)), draw(st.sampled_from(['obj', 'tuple']))]
             if kind == 'missing':
                 return ['missing', cls_idx()]
+            if kind == 'random':
+                return ['random', cls_idx(), draw(st.integers(1, 3)), draw(st.sampled_from(['fast', 'fast', 'query']))]
             return ['select', cls_idx(), 'gen']
 
         sessions = []
@@ -501,9 +523,20 @@ class Reader(object):
         m = self.m
         ob = m.objs[o]
         want = m.cname(ob['cls'])
-        got = type(obj).__name__
         if static != ob['cls']:
             self.bump('met_subclass_via_base')
+        # what the program looks at first matters: an object handed out as an unloaded base-class stub is repaired by
+        # the first read of a base attribute, so the first look is taken at the class, at to_dict() or at an attribute
+        # that only the subclass has
+        if m.observe == 'dict':
+            if not self.check_dict(obj, o, path):
+                return
+        elif m.observe == 'subattr':
+            names = [n_ for n_ in sorted(ob['exp']) if m.own[n_][0] not in m.anc[static]] if static != -1 else []
+            for name in names:
+                if not self.check_attr(obj, o, name, path + ' (first look)'):
+                    return
+        got = type(obj).__name__
         if got != want or type(obj) is not self.ents[ob['cls']]:
             ok = self.fail(path, 'object %s=%r was created as %s but reached through %s (declared %s) it is a %s'
                            % (m.pkname, ob['pk'], want, path, m.cname(static), got),
@@ -521,15 +554,37 @@ class Reader(object):
             self.fail(path, 'expected object %r, got object %r' % (ob['pk'], pk))
             return
         for name in sorted(ob['exp']):
-            try:
-                val = getattr(obj, name)
-            except AttributeError as e:
-                self.fail(path, 'attribute %s of %s[%r] (declared in %s) cannot be read: %s'
-                          % (name, want, ob['pk'], m.cname(m.own[name][0]), e))
+            if not self.check_attr(obj, o, name, path):
                 return
-            if val != ob['exp'][name] or type(val) is not type(ob['exp'][name]):
-                self.fail(path, 'attribute %s of %s[%r] (declared in %s) reads %r, stored %r'
-                          % (name, want, ob['pk'], m.cname(m.own[name][0]), val, ob['exp'][name]))
+        if m.observe != 'dict':
+            self.check_dict(obj, o, path)
+
+    def check_attr(self, obj, o, name, path):
+        m = self.m
+        ob = m.objs[o]
+        want = m.cname(ob['cls'])
+        try:
+            val = getattr(obj, name)
+        except AttributeError as e:
+            self.fail(path, 'attribute %s of %s[%r] (declared in %s) cannot be read: %s'
+                      % (name, want, ob['pk'], m.cname(m.own[name][0]), e), mismatch='attr')
+            return False
+        if val != ob['exp'][name] or type(val) is not type(ob['exp'][name]):
+            self.fail(path, 'attribute %s of %s[%r] (declared in %s) reads %r, stored %r'
+                      % (name, want, ob['pk'], m.cname(m.own[name][0]), val, ob['exp'][name]), mismatch='attr')
+        return True
+
+    def check_dict(self, obj, o, path):
+        m = self.m
+        ob = m.objs[o]
+        exp = m.expected_dict(o)
+        got = obj.to_dict()
+        self.bump('to_dict_checks')
+        if got != exp:
+            self.fail(path, '%s[%r].to_dict() reached through %s gives %r, the stored object is %r'
+                      % (m.cname(ob['cls']), ob['pk'], path, got, exp), mismatch='dict')
+            return False
+        return True
 
     def check_objects(self, objs, expected, static, path, as_set=False):
         """objs: entity instances returned by pony; expected: object indexes"""
@@ -819,6 +874,34 @@ class Reader(object):
             return
         for (hid, x) in pairs:
             self.check_obj(x, self.pk2o[self.pkof(x)], t, text)
+
+    def op_random(self, c, limit, form):
+        """C.select_random(limit) / C.select().random(limit): `limit` distinct stored instances of C (all of them when fewer
+        exist), whichever they are.  Pony draws from the `random` module: seeded here so that a case replays identically."""
+        import random
+        m = self.m
+        inst = m.instances(c)
+        path = '%s.select_random(%d)' % (m.cname(c), limit) if form == 'fast' else '%s.select().random(%d)' % (m.cname(c), limit)
+        state = random.getstate()
+        random.seed(1000 * self.focus['session'] + self.focus['op'])
+        try:
+            res = self.ents[c].select_random(limit) if form == 'fast' else self.ents[c].select().random(limit)[:]
+        finally:
+            random.setstate(state)
+        res = list(res)
+        got = [self.pkof(x) for x in res]
+        allowed = set(m.objs[o]['pk'] for o in inst)
+        self.bump('random_queries')
+        if c != 0:
+            self.bump('random_nonroot')
+        bad = [pk for pk in got if pk not in allowed]
+        if bad or len(set(got)) != len(got) or len(got) != min(limit, len(inst)):
+            self.fail(path, 'returned %s %r; expected %d distinct objects out of %r (created classes: %s)'
+                      % (m.pkname, got, min(limit, len(inst)), sorted(allowed, key=repr),
+                         ', '.join('%r:%s' % (ob['pk'], m.cname(ob['cls'])) for ob in m.objs)), mismatch='random')
+            return
+        for x in res:
+            self.check_obj(x, self.pk2o[self.pkof(x)], c, path)
 
     def op_missing(self, c):
         from pony.orm.core import ObjectNotFound
